@@ -35,7 +35,7 @@ def main():
     if not os.environ.get('VERIF_SKIP_SELFTEST'):
         st = subprocess.Popen([common.PY, '-m', 'checks.selftest'], stdout=subprocess.PIPE, stderr=subprocess.STDOUT,
                               text=True, cwd=common.VERIF, env=env)
-    total = common.run_units(modname, units)
+    total = common.run_units(modname, units, budget_s=float(os.environ.get('VERIF_BUDGET_S') or (900 if a.tier == 'quick' else 5400)))
     if st is not None:
         out, _ = st.communicate()
         if st.returncode != 0:
